@@ -309,6 +309,18 @@ func (s *scenario) newIter() int {
 	return j
 }
 
+// tryLite is vkit.Try without the stack capture: an iterator that refuses panics hundreds of
+// thousands of times per run here, and only the message is ever used.
+func tryLite(f func()) (p *vkit.Panic) {
+	defer func() {
+		if v := recover(); v != nil {
+			p = &vkit.Panic{Value: v, Msg: fmt.Sprint(v)}
+		}
+	}()
+	f()
+	return nil
+}
+
 func (s *scenario) next(j int) {
 	if s.stop {
 		return
@@ -322,7 +334,7 @@ func (s *scenario) next(j int) {
 	var id int
 	var raw string
 	var ok bool
-	p := vkit.Try(func() { id, raw, ok = it.next() })
+	p := tryLite(func() { id, raw, ok = it.next() })
 	it.calls++
 	if m.exhausted {
 		it.extra++
